@@ -461,8 +461,59 @@ def t_exporter(a, seed, tier):
                  pair.s.keyingMaterialExporter(bytearray(label), ln), got)
 
 
+def t_tls13_record_keys(a, seed, tier):
+    """Record protection keys of TLS 1.3: calcTLS1_3PendingState and the
+    KeyUpdate step (several generations), for every TLS 1.3 suite, against
+    HKDF-Expand-Label with the hash in the suite's name; each derived state
+    is also made to seal a record that the reference AEAD must open."""
+    from .. import scen as S
+    from tlslite.recordlayer import RecordLayer
+    for sid in sorted(CS.tls13Suites):
+        info = S.ALL_INFOS[sid]
+        h = info.prf
+        hl = 48 if h == "sha384" else 32
+        kl = info.keylen // 8
+
+        def ref_aead_seal(key, nonce, pt, aad):
+            if info.mode == "GCM":
+                return R.gcm_seal(key, nonce, pt, aad)
+            if info.mode in ("CCM", "CCM_8"):
+                return R.ccm_seal(key, nonce, pt, aad,
+                                  8 if info.mode == "CCM_8" else 16)
+            return R.chacha20poly1305_seal(key, nonce, pt, aad)
+
+        def check_state(kind, case, state, secret):
+            key = R.hkdf_expand_label(secret, b"key", b"", kl, h)
+            iv = R.hkdf_expand_label(secret, b"iv", b"", 12, h)
+            a.eq(kind + "-iv", case, state.fixedNonce, iv)
+            nonce = bytes(iv)
+            pt, aad = vals(33, seed, 2), vals(5, seed, 3)
+            a.eq(kind + "-seal", case,
+                 state.encContext.seal(bytearray(nonce), bytearray(pt),
+                                       bytearray(aad)),
+                 ref_aead_seal(key, nonce, pt, aad))
+        cl, sr = vals(hl, seed, 3), vals(hl, seed, 4)
+        rl = RecordLayer(None)
+        rl.version = (3, 4)
+        rl.calcTLS1_3PendingState(sid, bytearray(cl), bytearray(sr),
+                                  ["python"])
+        check_state("tls13-pending-client", [info.name],
+                    rl._pendingWriteState if rl.client else
+                    rl._pendingReadState, cl)
+        check_state("tls13-pending-server", [info.name],
+                    rl._pendingReadState if rl.client else
+                    rl._pendingWriteState, sr)
+        sec = bytes(cl)
+        for gen in range(1, 4):
+            new_sec, st = rl._calcTLS1_3KeyUpdate(sid, bytearray(sec))
+            want = R.hkdf_expand_label(sec, b"traffic upd", b"", hl, h)
+            a.eq("tls13-keyupdate-secret", [info.name, gen], new_sec, want)
+            check_state("tls13-keyupdate", [info.name, gen], st, want)
+            sec = want
+
+
 GROUPS = [t_block, t_cbc, t_stream, t_chacha_poly, t_hmac, t_prf, t_hkdf,
-          t_calc_key, t_exporter]
+          t_calc_key, t_exporter, t_tls13_record_keys]
 
 
 def run_group(item):
